@@ -10,7 +10,7 @@ FLOAT_KINDS = {'split', 'decompose'}      # float-mode companion (core.float_com
 FLOAT_TOL = 1e-8
 STATS = G.STATS
 PARTIAL = [
-    "proved end to end through splitDir / decomposeDir / decomposeUV (spans found by find_span_linear, closed end parameters included): split_curve, split_surface_u / split_surface_v (both pieces = original under the affine domain maps; other direction under the normalisation map of its knot vector), decompose_curve and decompose_surface 'u' / 'v' / 'uv' (exactly one piece per non-empty knot interval / pair of intervals, in order, each coinciding on its interval / rectangle). Hypotheses: degree >= 1, inner knots repeated at most p times, find_multiplicity's tolerance separates the parameter from the other knots; the SPLIT theorems (curve, surface u, surface v) hold for clamped AND unclamped knot vectors in the split direction (split_unclamped_*: sorted knots, domain [U_p, U_n] with a non-empty last span; each piece evaluated at the affine image of t in its own domain, which is [(U_p-U_0)/(u-U_0), 1] resp. [0, (U_n-u)/(U_{n+p}-u)] because the constructor normalises the piece's whole knot range; rejection at both domain ends U_p, U_n); the DECOMPOSITION theorems for curves and for surfaces in 'u' / 'v' / 'uv' hold for clamped AND unclamped knot vectors in the decomposed direction(s) (decompose_unclamped_curve_pieces / _count, decompose_unclamped_surface_u_pieces / _v_pieces / _uv_pieces; hypothesis DecompWFU: U_p < U_{p+1} (the non-raising guard), non-empty last span, inner knots U_{p+1}..U_{n-1} repeated at most p times, knot range <= 1, any two knots separated by the tolerance; surfaces: the other direction's knot vector normalised, 'uv': both normalised): one single-span segment with p+1 control points per non-empty interval, in order, coinciding under the affine map of its own domain [V_p, V_{p+1}]; piece i is a Bezier segment (clamped at both ends, knot vector 0^{p+1} 1^{p+1}) whenever (i >= 1 or the input is clamped at its start) and (i is not the last piece or the input is clamped at its end), i.e. every inner piece; the first piece of an unclamped input starts at knot 0 with domain start (U_p-U_0)/(U_{p+1}-U_0) and ends with p+1 ones, the last one starts with p+1 zeros, has the domain end (U_n-b)/(U_{n+p}-b) (b the last interior break point) and ends at knot 1. The exceptions of the code are modelled by splitDirE / decomposeDirE / decomposeUVE (what the driver runs; proved equal to the plain model wherever they answer): 'Cannot split from the domain edge' when the first knot of U[p+1:-(p+1)] lies on the domain start (U_{p+1} = U_p: unclamped, or clamped with p+2 equal first knots) or on the domain end, ValueError when a split parameter / decomposition knot is repeated more than p times. Not proved: degree 0, inner knots of multiplicity > p (outside the quantifier: the implementation raises, the driver answers ERR), un-normalised other-direction knot vector in decompose_surface, volumes; checked by the exact oracle",
+    "proved end to end through splitDir / decomposeDir / decomposeUV (spans found by find_span_linear, closed end parameters included): split_curve, split_surface_u / split_surface_v (both pieces = original under the affine domain maps; other direction under the normalisation map of its knot vector; the surface theorems quantify the free parameter of the other direction from its domain start upwards without an upper bound - totalised model evaluation on both sides; on the domain both sides are what evaluate_single returns), decompose_curve and decompose_surface 'u' / 'v' / 'uv' (exactly one piece per non-empty knot interval / pair of intervals, in order, each coinciding on its interval / rectangle). Hypotheses: degree >= 1, inner knots repeated at most p times, find_multiplicity's tolerance separates the parameter from the other knots; the SPLIT theorems (curve, surface u, surface v) hold for clamped AND unclamped knot vectors in the split direction (split_unclamped_*: sorted knots, domain [U_p, U_n] with a non-empty last span; each piece evaluated at the affine image of t in its own domain, which is [(U_p-U_0)/(u-U_0), 1] resp. [0, (U_n-u)/(U_{n+p}-u)] because the constructor normalises the piece's whole knot range; rejection at both domain ends U_p, U_n); the DECOMPOSITION theorems for curves and for surfaces in 'u' / 'v' / 'uv' hold for clamped AND unclamped knot vectors in the decomposed direction(s) (decompose_unclamped_curve_pieces / _count, decompose_unclamped_surface_u_pieces / _v_pieces / _uv_pieces; hypothesis DecompWFU: U_p < U_{p+1} (the non-raising guard), non-empty last span, inner knots U_{p+1}..U_{n-1} repeated at most p times, knot range <= 1, any two knots separated by the tolerance; surfaces: the other direction's knot vector normalised, 'uv': both normalised): one single-span segment with p+1 control points per non-empty interval, in order, coinciding under the affine map of its own domain [V_p, V_{p+1}]; piece i is a Bezier segment (clamped at both ends, knot vector 0^{p+1} 1^{p+1}) whenever (i >= 1 or the input is clamped at its start) and (i is not the last piece or the input is clamped at its end), i.e. every inner piece; the first piece of an unclamped input starts at knot 0 with domain start (U_p-U_0)/(U_{p+1}-U_0) and ends with p+1 ones, the last one starts with p+1 zeros, has the domain end (U_n-b)/(U_{n+p}-b) (b the last interior break point) and ends at knot 1. The exceptions of the code are modelled by splitDirD (= splitDirE plus: a split parameter OUTSIDE the closed domain [U_p, U_n] of the split direction raises - for unclamped inputs also between the outer knots and the domain; stream split-outside) / decomposeDirE / decomposeUVE (what the driver runs; proved equal to the plain model wherever they answer, split_with_all_exceptions_agrees: an answered split has U_p < u < U_n and multiplicity <= p): 'Cannot split from the domain edge' when the first knot of U[p+1:-(p+1)] lies on the domain start (U_{p+1} = U_p: unclamped, or clamped with p+2 equal first knots) or on the domain end, ValueError when a split parameter / decomposition knot is repeated more than p times. Not proved: degree 0, inner knots of multiplicity > p (outside the quantifier: the implementation raises, the driver answers ERR), un-normalised other-direction knot vector in decompose_surface, volumes; checked by the exact oracle",
 ]
 
 
@@ -58,6 +58,31 @@ def gen(rng, tier):
             u = kv[p] + (kv[kn] - kv[p]) * F(rng.randint(1, 99), 100); G.count('split_param', 'unclamped-in-span')
         line = "split %s %s %d %s" % (KO.KIND[d['kind']], S.args(d), i, fr(u))
         out.append(Case('split', line, dict(shape=d, dir=i, u=u), tags=('unclamped',)))
+    # split-outside: the parameter lies OUTSIDE the domain [U_p, U_n] of the split direction (outside the property's
+    # quantifier): unclamped inputs with the parameter between the outer knots and the domain (on a knot or not), both
+    # sides, and clamped / unclamped inputs with the parameter outside the whole knot range; the implementation raises
+    # (ValueError / GeomdlException), the driver must answer ERR
+    for _ in range(24 if tier == 'quick' else 300):
+        clamped = rng.random() < .25
+        d = S.rand_curve(rng, maxp=4, clamped=clamped, allow_range=True) if rng.random() < .6 else S.rand_surface(rng, maxp=3, max_interior=2, clamped=clamped, allow_range=True)
+        nd = len(S.dirs(d))
+        i = rng.randrange(nd)
+        p, kv, kn = S.dirs(d)[i]
+        lo, hi = kv[p], kv[kn]
+        cands = [('below-range', kv[0] - F(rng.randint(1, 5), 3)), ('above-range', kv[-1] + F(rng.randint(1, 5), 3))]
+        below = sorted(set(x for x in kv if x < lo)); above = sorted(set(x for x in kv if x > hi))
+        if below:
+            cands += [('below-on-knot', rng.choice(below))] * 2
+        if above:
+            cands += [('above-on-knot', rng.choice(above))] * 2
+        if kv[0] < lo:
+            cands += [('below-between', kv[0] + (lo - kv[0]) * F(rng.randint(1, 9), 10))] * 2
+        if kv[-1] > hi:
+            cands += [('above-between', hi + (kv[-1] - hi) * F(rng.randint(1, 9), 10))] * 2
+        lab, u = rng.choice(cands)
+        G.count('split_param', 'outside-' + lab)
+        line = "split %s %s %d %s" % (KO.KIND[d['kind']], S.args(d), i, fr(u))
+        out.append(Case('split', line, dict(shape=d, dir=i, u=u), tags=('split-outside', lab)))
     for _ in range(8 if tier == 'quick' else 80):
         d = _shape(rng)
         nd = len(S.dirs(d))
@@ -297,14 +322,17 @@ def oracle(c):
         i, u = c.data['dir'], c.data['u']
         at_end = u in dom[i]
         over = _mult(u, ds[i][1]) > ds[i][0]      # more than p copies of the parameter: outside the quantifier
+        outside = u < dom[i][0] or u > dom[i][1]  # outside the domain: outside the quantifier, the code raises
         try:
             ps = _split(o, d, i, u)
         except Exception as e:
-            if at_end or over:
+            if at_end or over or outside:
                 return None if S.from_obj(o) == before else "rejected split modified the input"
             return "split at interior parameter raised %s: %s" % (type(e).__name__, e)
         if at_end:
             return "split at a domain end was not rejected"
+        if outside:
+            return None        # outside the property's quantifier: not judged here (the correspondence compares ERR = raise)
         if S.from_obj(o) != before:
             return "split modified its input"
         if S.views_why(o):
